@@ -5,6 +5,7 @@ ROOT = os.path.dirname(os.path.dirname(os.path.abspath(__file__)))
 PROPS = [json.loads(l)['id'] for l in open(os.path.join(ROOT, 'properties.jsonl'))]
 
 TECH = 'TLA+ specification; TLC bounded model check of the group model + TLC trace validation of recorded executions of the real code'
+TECH_X = 'TLA+ specification (oracle operators) + TLC trace validation of recorded executions of the real code'
 CLAIMED = {
  'C18': dict(text='E1: TLC checks the TCP life-cycle model (spec/Tcp.tla: attempt / refused -> 5 s sleep -> wake / up / deliver / peer ends) over all scripts of <= 3 faults from {refuse, accept+close, accept+frames+close, accept+partial line+reset, accept+junk} followed by a healthy connection: a change of connection state never changes the table, nothing learned is lost, the pause is respected, and (liveness, weak fairness) the healthy connection is eventually up and decoded. Conformance: a scripted loopback peer plays the same fault sequences (quick 6, thorough all 155) against the real binary; TLC judges accept times, gaps, liveness of the process and the last refresh.',
              note='refused attempts cannot be observed by the peer directly; the pause is judged from the accept time after the port is reopened (5n s -0.5/+4 s after the previous connection ended, n = consecutive refusals); wall-clock based', ref='5 C18'),
@@ -56,9 +57,10 @@ for pid in PROPS:
             'evidence_file': 'evidence/%s.json' % pid,
             'replay_cmd_template': './check %s --replay {path}' % pid,
             'engine': 'tlc-trace',
-            'level_claimed': {'category': 'model_checking', 'text': c['text'], 'design_ref': 'DESIGN.md section ' + c['ref']},
+            'level_claimed': {'category': 'exploration' if pid in ('C14', 'C15', 'C17') else 'model_checking', 'text': c['text'],
+                              'design_ref': 'DESIGN.md section ' + c['ref']},
             'level_note': c['note'],
-            'technique': TECH,
+            'technique': TECH_X if pid in ('C14', 'C15', 'C17') else TECH,
         })
 na = [{'property_id': p, 'reason': 'check under construction in this round (framework being built property by property); to be claimed when its conformance check and model exist'}
       for p in PROPS if p not in CLAIMED]
